@@ -40,6 +40,8 @@ TOL_ANALYTIC = 1e-4
 W_FLOOR = 0.5
 # filtered results smaller than this fraction of the un-filtered result are not judged
 FILTER_FLOOR = 0.05
+# relative size of the hyper-parameter change used to measure the rounding sensitivity of gamma-based kernels
+PROBE = 3e-6
 
 _FROZEN = False
 
@@ -272,17 +274,19 @@ class _Setup:
         s = self.case["stack"]
         return R.make_stack(s["seed"] if seed is None else seed, s["eps"], self.n, self.scan)
 
-    def build(self, q, stack, route="init", px=None, soft=True, crop=None):
-        """A fresh instance.  px: construct from this pixel list (stack rows must match) instead of the full mask."""
+    def build(self, q, stack, route="init", px=None, soft=True, crop=None, perturb=0.0):
+        """A fresh instance.  px: construct from this pixel list (stack rows must match) instead of the full mask.
+        perturb: relative (magnitudes, cut-off) / absolute in rad (angles) change of every hyper-parameter."""
         torch, cp, Dataset2d, Dataset3d, DP = q
         mask = self.mask if px is None else R.mask_array(px, self.gpts)
         msamp = self.rs if self.units == "A^-1" else [v * self.lam * 1e3 for v in self.rs]
         vd = Dataset3d.from_array(np.array(stack, dtype=np.float32), name="vbf", units=("index", "A", "A"), sampling=(1, self.ss[0], self.ss[1]))
         md = Dataset2d.from_array(mask.copy(), name="mask", units=(self.units, self.units), sampling=tuple(msamp))
         init = route == "init"
+        abers = {k: (v + perturb if "angle" in k or k.startswith("phi") else v * (1.0 + perturb)) for k, v in self.abers}
         return DP.from_virtual_bfs(
-            vd, md, energy=float(self.case["energy"]), rotation_angle=self.rot if init else 0.0,
-            aberration_coefs=dict(self.abers) if init else {}, semiangle_cutoff=self.cutoff, soft_edges=bool(soft),
+            vd, md, energy=float(self.case["energy"]), rotation_angle=(self.rot + perturb) if init else 0.0,
+            aberration_coefs=abers if init else {}, semiangle_cutoff=self.cutoff * (1.0 + perturb), soft_edges=bool(soft),
             crop_bf_mask=self.crop if crop is None else crop, bf_mask_padding_px=int(self.case.get("pad", 1)), verbose=False,
         )  # fmt: skip
 
@@ -358,17 +362,24 @@ def _note(ctx, key, val):
         ctx.extra[key] = float(val)
 
 
-def _cmp(ctx, case, key, got, want, scale, tol, msg):
+def _cmp(ctx, case, key, got, want, scale, tol, msg, slack=0.0):
+    """max |got - want| <= tol * scale + slack.  `slack` is the measured rounding sensitivity (see _check_meta)."""
     if case["kind"] == "meta":
         key = "%s:%s" % (key, R.FAMILY[case["kernel"]])
     if got.shape != want.shape:
         raise core.Violation("%s: shapes %s vs %s" % (msg, got.shape, want.shape), case)
     err = float(np.max(np.abs(got - want))) if got.size else 0.0
     rel = err / scale if scale > 0 else (0.0 if err == 0.0 else float("inf"))
+    allowed = tol * scale + slack
     if not math.isnan(rel):
-        _note(ctx, key, rel)
-    if not rel <= tol:
-        raise core.Violation("%s: max difference %.3g = %.3g of the scale %.3g (tolerance %.1g)" % (msg, err, rel, scale, tol), case)
+        _note(ctx, "max_rel_err_" + key, rel)
+        _note(ctx, "max_fraction_of_allowance_" + key, err / allowed if allowed > 0 else (0.0 if err == 0.0 else float("inf")))
+    if not err <= allowed:
+        raise core.Violation(
+            "%s: max difference %.3g = %.3g of the scale %.3g (allowed: %.1g of the scale%s)"
+            % (msg, err, rel, scale, tol, " + rounding sensitivity %.3g" % slack if slack else ""),
+            case,
+        )
 
 
 # ------------------------------------------------------------------------------------------------
@@ -430,6 +441,24 @@ def _check_meta(ctx, case):
     live = s_stack > 0.0
     ctx.record(case, bool(live and S.nr >= 4 and unequal), classes + ([] if live else ["zero_result"]))
 
+    # Rounding sensitivity.  The ssb/obf/mf factors contain gamma = P(q-k) P*(k) - P*(q+k) P(k), a difference of
+    # two O(1) terms each carrying float32 phase errors of ~1e-7 |chi|; ssb and obf then divide by |gamma| resp.
+    # sqrt(sum |gamma|^2).  Near the zeros of the transfer function the last-bit differences between torch's
+    # code paths for different batch shapes are amplified without bound, so no fixed tolerance is sound there
+    # (seen: 8e-6 of max |result| with |chi| ~ 15, one bin with |gamma| ~ 0.01).  The allowance for comparisons
+    # between runs with different batch composition therefore adds the measured response of the same
+    # reconstruction to a PROBE (3e-6) relative change of every hyper-parameter (~50 float32 ulp; angles: rad).
+    d_stack = d_bf = 0.0
+    if fam in ("ssb", "obf", "mf"):
+        with ctx.sut(case, "from_virtual_bfs + reconstruct(%s), hyper-parameters changed by %g" % (case["kernel"], PROBE)):
+            Sp, Bp = S.run(q, S.build(q, X, "init", soft=soft, perturb=PROBE), sel0, "init", None, deconvolution_kernel=case["kernel"], **kw)
+        _finite(case, "reconstruction (%s)" % fam, Sp, Bp)
+        d_stack = float(np.max(np.abs(Sp - S0)))
+        d_bf = float(np.max(np.abs(Bp - B0))) + math.sqrt(S.nr) * d_stack
+        _note(ctx, "max_rounding_sensitivity_rel:" + fam, d_stack / s_stack if s_stack > 0 else 0.0)
+        if d_stack > 0.01 * s_stack:
+            ctx.count("ill_conditioned(sensitivity>1%)")
+
     # (1) schedule invariance, on one re-used instance, hyper-parameters by the drawn route, second kernel name
     with ctx.sut(case, "from_virtual_bfs"):
         dpb = S.build(q, X, S.route, soft=soft)
@@ -437,8 +466,8 @@ def _check_meta(ctx, case):
         with ctx.sut(case, "reconstruct(max_batch_size=%d)" % bs):
             Sb, Bb = S.run(q, dpb, S.sel, S.route, bs, deconvolution_kernel=case["kernel2"], **kw)
         what = "kernel %s, %d pixels, max_batch_size=%d vs un-batched" % (fam, S.nr, bs)
-        _cmp(ctx, case, "max_rel_err_batch", Sb, S0, s_stack, TOL_BATCH, "corrected_stack, " + what)
-        _cmp(ctx, case, "max_rel_err_batch", Bb, B0, s_bf, TOL_BATCH, "corrected_bf, " + what)
+        _cmp(ctx, case, "batch", Sb, S0, s_stack, TOL_BATCH, "corrected_stack, " + what, d_stack)
+        _cmp(ctx, case, "batch", Bb, B0, s_bf, TOL_BATCH, "corrected_bf, " + what, d_bf)
 
     # (5) the sub-mask reconstruction is a function of the sub-stack and the sub-mask alone
     if S.sub is not None:
@@ -447,8 +476,9 @@ def _check_meta(ctx, case):
             dpc = S.build(q, X[S.sel], "init", px=sub_px, soft=soft, crop=False)
             Sc, Bc = S.run(q, dpc, None, "init", None, deconvolution_kernel=case["kernel"], **kw)
         what = "kernel %s: reconstruct(bf_mask=sub-mask of %d/%d pixels) vs an instance built from that sub-mask and its images" % (fam, S.nr, S.n)
-        _cmp(ctx, case, "max_rel_err_submask", S0, Sc, float(np.max(np.abs(Sc))), TOL_BATCH, "corrected_stack, " + what)
-        _cmp(ctx, case, "max_rel_err_submask", B0, Bc, float(np.max(np.abs(Bc))) + float(np.max(np.abs(Sc))), TOL_BATCH, "corrected_bf, " + what)
+        # (with crop_bf_mask=True the two instances use detector grids of different size: k differs in the last bit)
+        _cmp(ctx, case, "submask", S0, Sc, float(np.max(np.abs(Sc))), TOL_BATCH, "corrected_stack, " + what, d_stack)
+        _cmp(ctx, case, "submask", B0, Bc, float(np.max(np.abs(Bc))) + float(np.max(np.abs(Sc))), TOL_BATCH, "corrected_bf, " + what, d_bf)
 
     # (2) linearity in the stack
     lin = case["lin"]
@@ -461,12 +491,13 @@ def _check_meta(ctx, case):
     _finite(case, "reconstruction (%s)" % fam, Sy, Sz)
     sc = abs(a) * s_stack + abs(b) * float(np.max(np.abs(Sy)))
     what = "kernel %s: R(%g X + %g Y) vs %g R(X) + %g R(Y)" % (fam, a, b, a, b)
-    _cmp(ctx, case, "max_rel_err_linear", Sz, a * S0 + b * Sy, sc, TOL_LIN, "corrected_stack, " + what)
-    _cmp(ctx, case, "max_rel_err_linear", Bz, a * B0 + b * By, abs(a) * s_bf + abs(b) * (float(np.max(np.abs(By))) + float(np.max(np.abs(Sy)))), TOL_LIN, "corrected_bf, " + what)
+    _cmp(ctx, case, "linear", Sz, a * S0 + b * Sy, sc, TOL_LIN, "corrected_stack, " + what)
+    _cmp(ctx, case, "linear", Bz, a * B0 + b * By, abs(a) * s_bf + abs(b) * (float(np.max(np.abs(By))) + float(np.max(np.abs(Sy)))), TOL_LIN, "corrected_bf, " + what)
 
     # (3) complementary sub-masks recombine, single-pass kernels.  (soft_edges=False instances still normalise
-    # by the soft-aperture weight; which weight the statement means there is not settled, so it is left out)
-    if fam in R.SINGLE_PASS and soft:
+    # by the soft-aperture weight; which weight the statement means there is not settled, so such instances are
+    # only judged when every pixel is fully inside the aperture: weight 1 under both readings)
+    if fam in R.SINGLE_PASS and (soft or bool(np.all(w_sel == 1.0))):
         pa = sorted({int(v) for v in case["part"] if 0 <= int(v) < S.nr})
         pb = [i for i in range(S.nr) if i not in set(pa)]
         if pa and pb:
@@ -480,9 +511,10 @@ def _check_meta(ctx, case):
                 _finite(case, "sub-mask reconstruction (%s)" % fam, Ba, Bb2)
                 sc3 = wa * (float(np.max(np.abs(Ba))) + float(np.max(np.abs(_sa)))) + wb * (float(np.max(np.abs(Bb2))) + float(np.max(np.abs(_sb)))) + W * s_bf
                 _cmp(
-                    ctx, case, "max_rel_err_partition", wa * Ba + wb * Bb2, W * B0, sc3, TOL_PART,
+                    ctx, case, "partition", wa * Ba + wb * Bb2, W * B0, sc3, TOL_PART,
                     "kernel %s: W_A bf_A + W_B bf_B vs W bf for a bipartition %d + %d of the %d-pixel mask (weights %.6g + %.6g vs %.6g)"
                     % (fam, len(A), len(Bm), S.nr, wa, wb, W),
+                    W * d_bf,
                 )  # fmt: skip
                 ctx.count("partition_judged")
             else:
@@ -548,7 +580,7 @@ def _check_analytic(ctx, case):
         "parallax (no sign flipping) corrected_bf vs sum_k T[s_k](v_k - mean v_k) / W over %d pixels, W=%.6g, aberrations %r, rotation %r, "
         "largest shift %.3g scan px" % (S.nr, W, S.canon, S.rot, maxshift_px)
     )
-    _cmp(ctx, case, "max_rel_err_analytic", got, want, float(np.max(np.abs(want))), TOL_ANALYTIC, msg)
+    _cmp(ctx, case, "analytic", got, want, float(np.max(np.abs(want))), TOL_ANALYTIC, msg)
 
 
 # ------------------------------------------------------------------------------------------------
